@@ -112,6 +112,12 @@ func (d *Driver) size(class string, base math.Int) math.Int {
 		return jit(base.MulRaw(3).QuoRaw(10))
 	case "s4":
 		return base.MulRaw(999).QuoRaw(1000)
+	case "big":
+		return jit(base.MulRaw(9).QuoRaw(10))
+	case "20%":
+		return jit(base.MulRaw(2).QuoRaw(10))
+	case "x2":
+		return jit(base.MulRaw(2))
 	case "all":
 		return base
 	case "over":
@@ -133,6 +139,12 @@ func frac(class string, total math.Int, rnd func(int) int) math.Int {
 		return total.QuoRaw(2)
 	case "most":
 		return total.MulRaw(9).QuoRaw(10)
+	case "80%":
+		return total.MulRaw(8).QuoRaw(10)
+	case "65%":
+		return total.MulRaw(65).QuoRaw(100)
+	case "73%":
+		return total.MulRaw(73).QuoRaw(100)
 	case "allbut1":
 		return total.SubRaw(1)
 	case "all":
@@ -487,6 +499,19 @@ func (d *Driver) Apply(s Step) bool {
 			owner = user
 		}
 		pos, err := a.LeveragelpKeeper.GetPosition(ctx, c.Addr[owner], id)
+		if err != nil && !s.Has("exact") {
+			// the abstract id names no position: use one of the owner's existing positions, if any
+			var mine []uint64
+			for _, p := range a.LeveragelpKeeper.GetAllPositions(ctx) {
+				if p.Address == d.addr(owner) {
+					mine = append(mine, p.Id)
+				}
+			}
+			if len(mine) > 0 {
+				id = mine[c.Rand.Intn(len(mine))]
+				pos, err = a.LeveragelpKeeper.GetPosition(ctx, c.Addr[owner], id)
+			}
+		}
 		lpAmt := math.OneInt()
 		if err == nil {
 			lpAmt = frac(s.S("frac"), pos.LeveragedLpAmount, c.Rand.Intn)
@@ -501,6 +526,9 @@ func (d *Driver) Apply(s Step) bool {
 		return true
 
 	case "levClosePositions":
+		if !s.Has("exact") {
+			s = Step{"a": s["a"], "u": s["u"], "liq": d.resolveReqs(ctx, s["liq"], false), "sl": d.resolveReqs(ctx, s["sl"], false)}
+		}
 		var liq, sl []*leveragelptypes.PositionRequest
 		for _, x := range posReqs(d, s["liq"]) {
 			pr := x.([]any)
@@ -576,6 +604,18 @@ func (d *Driver) Apply(s Step) bool {
 	case "perpClose":
 		id := uint64(s.I("id"))
 		mtp, err := a.PerpetualKeeper.GetMTP(ctx, c.Addr[user], id)
+		if err != nil && !s.Has("exact") {
+			var mine []uint64
+			for _, m := range a.PerpetualKeeper.GetAllMTPs(ctx) {
+				if m.Address == d.addr(user) {
+					mine = append(mine, m.Id)
+				}
+			}
+			if len(mine) > 0 {
+				id = mine[c.Rand.Intn(len(mine))]
+				mtp, err = a.PerpetualKeeper.GetMTP(ctx, c.Addr[user], id)
+			}
+		}
 		amt := math.OneInt()
 		if err == nil {
 			amt = frac(s.S("frac"), mtp.Custody, c.Rand.Intn)
@@ -586,6 +626,9 @@ func (d *Driver) Apply(s Step) bool {
 		return true
 
 	case "perpClosePositions":
+		if !s.Has("exact") {
+			s = Step{"a": s["a"], "u": s["u"], "liq": d.resolveReqs(ctx, s["liq"], true), "sl": d.resolveReqs(ctx, s["sl"], true), "tp": d.resolveReqs(ctx, s["tp"], true)}
+		}
 		mk := func(v any) (out []perpetualtypes.PositionRequest) {
 			for _, x := range posReqs(d, v) {
 				pr := x.([]any)
@@ -788,6 +831,43 @@ func idStrs(ids []uint64) []any {
 	out := []any{}
 	for _, i := range ids {
 		out = append(out, u(i))
+	}
+	return out
+}
+
+// resolveReqs maps abstract (owner, id) pairs to existing positions where the pair names none (half of the time),
+// so that random walks exercise real positions as well as non-existent ones.
+func (d *Driver) resolveReqs(ctx sdk.Context, v any, perp bool) []any {
+	arr, _ := v.([]any)
+	out := []any{}
+	type pk struct {
+		owner string
+		id    uint64
+	}
+	var all []pk
+	if perp {
+		for _, m := range d.C.App.PerpetualKeeper.GetAllMTPs(ctx) {
+			all = append(all, pk{d.C.name(m.Address), m.Id})
+		}
+	} else {
+		for _, p := range d.C.App.LeveragelpKeeper.GetAllPositions(ctx) {
+			all = append(all, pk{d.C.name(p.Address), p.Id})
+		}
+	}
+	for _, x := range arr {
+		pr := x.([]any)
+		owner, id := pr[0].(string), uint64(pr[1].(float64))
+		exists := false
+		for _, k := range all {
+			if k.owner == owner && k.id == id {
+				exists = true
+			}
+		}
+		if !exists && len(all) > 0 && d.C.Rand.Intn(2) == 0 {
+			k := all[d.C.Rand.Intn(len(all))]
+			owner, id = k.owner, k.id
+		}
+		out = append(out, []any{owner, float64(id)})
 	}
 	return out
 }
